@@ -221,7 +221,7 @@ def representable(s, fmt):
         if not std:
             return "rotated base (format stores cell parameters only)"
         a_, b_, c_, al, be, ga = lat.abcABG()
-        if max(a_, b_, c_) >= 99999.9995 or max(al, be, ga) >= 999.995:
+        if a_ >= 9999.9995 or max(b_, c_) >= 99999.9995 or max(al, be, ga) >= 999.995:   # reader takes a from columns 8-15
             return "cell exceeds CRYST1 columns"
         if len(s) > 99998:
             return "too many atoms"
